@@ -41,3 +41,9 @@ claim("C12",
   "1-5 concurrently live gauges from real purchases, pay-once posts and keeper-level creation (amounts 0..1e15, durations 1us..10y, odd nanosecond parts), twins created in the same block with equal end and coins, reward blocks at increments from 0 and 1us to beyond the end and at generated per-mille positions of a live gauge's remaining time. Every reward block checks every gauge: cumulative release within 1 of floor(D*elapsed/total) in whole microseconds, monotone, <= D, nothing outside the interval, pool credited exactly. The same-block id collision found this way is fixed in /repo (18cbf05d).",
   "No provers exist in this world so the pool only receives; coin amounts <= 1e15; the unreleased remainder of a gauge first seen after its end is outside the property (only 'nothing more' is asserted).",
   "DESIGN.md section 4 C12")
+
+claim("C04",
+  "property-based test (rapid) over payment histories on a fork of the real app; full balance/supply/gauge snapshot oracle with big.Int accounting",
+  "Histories of 1-5 BuyStorage / pay-once PostFile messages under generated ratio and price parameters, price-feed states, payer balances, size tiers, durations, ForAddress and Referral choices (address, RNS name, self, unknown, junk, module accounts) and plan states (none/active/expired, with follow-up upgrades and renewals). Every message: failure moves nothing; success debits exactly the recomputed price (chain's exported cost function, independent proration and discount), gauge account credit equals the growth of its record, POL and referrer/fee-collector shares within one unit, remainder in the module account, credits <= debit, nobody else changes, supply constant. The referrer-paid-POL-share defect is fixed in /repo (1c4bf3e3).",
+  "GetStorageCost/GetStorageCostKbs are taken as 'the price the chain computes'; coin amounts <= 1e15; fork mode without ante handler (no fees).",
+  "DESIGN.md section 4 C04")
